@@ -28,6 +28,8 @@ type c18Case struct {
 	Xml    string `json:"xml,omitempty"`
 	Prefix string `json:"prefix,omitempty"`
 	KeyPfx bool   `json:"key_prefix,omitempty"`
+	// documented effect of CoerceKeysToSnakeCase on the decoders: the same Map with '-' in keys turned into '_'
+	Snake string `json:"snake_case_document,omitempty"`
 }
 
 func init() {
@@ -706,7 +708,7 @@ func c18Run(c *Ctx) {
 						c18PrefixInternal(c, x, p, false)
 					}
 				}
-				for _, p := range []string{"_", "$", "%"} {
+				for _, p := range []string{"_", "$", "%", "\u00a7", "\u2020"} {
 					if c.Mine() {
 						c.Count("prefix_is_internal_cases", 1)
 						c.S.Schedules++
@@ -714,6 +716,15 @@ func c18Run(c *Ctx) {
 					}
 				}
 			}
+		}
+	}
+	resetOptions()
+	for _, x := range []string{`<doc><a-b c-d="1">x</a-b><a-b/></doc>`, `<my-ns:tag xmlns:my-ns="urn:x"><my-ns:it-em>1</my-ns:it-em></my-ns:tag>`, `<a-b:c/>`,
+		`<doc><a_b>x</a-b></doc>`, `<doc><a-b>x</a_b></doc>`, `<n:a-b xmlns:n="u" k-k="v"><!-- c --><n:c-d>t</n:c-d></n:a-b>`} { // (names that coincide after conversion are collected into a list by the usual convention: not in this family, whose reference only renames)
+		if c.Mine() {
+			c.Count("snake_case_decoder_cases", 1)
+			c.S.Schedules++
+			c18Snake(c, x)
 		}
 	}
 	resetOptions()
@@ -948,7 +959,7 @@ func c18PrefixInternal(c *Ctx, xmlText, prefix string, keyPfx bool) (nontrivial 
 		b, err := m.XmlIndent("", " ")
 		return string(a) + "\n" + string(b), err
 	}
-	var base, got string
+	var base, got, keyDiff string
 	var e0, e1 error
 	st, pan := protect(func() {
 		resetOptions()
@@ -961,8 +972,29 @@ func c18PrefixInternal(c *Ctx, xmlText, prefix string, keyPfx bool) (nontrivial 
 			mxj.SetAttrPrefix(prefix)
 		}
 		got, e1 = trip()
+		if keyPfx {
+			// explicit value twice = once; and the default prefix brings every key name back
+			mxj.SetGlobalKeyMapPrefix(prefix)
+			v2 := realVector()
+			mxj.SetGlobalKeyMapPrefix("#")
+			curKeyPrefix = "#"
+			v3 := realVector()
+			for _, kv := range keyVars {
+				want := strings.Replace(defaultKeyNames[kv], "#", prefix, 1)
+				if v2.s(kv) != want && keyDiff == "" {
+					keyDiff = fmt.Sprintf("after SetGlobalKeyMapPrefix(%q) twice %s is %q, expected %q", prefix, kv, v2.s(kv), want)
+				}
+				if v3.s(kv) != defaultKeyNames[kv] && keyDiff == "" {
+					keyDiff = fmt.Sprintf("after SetGlobalKeyMapPrefix(%q) and then SetGlobalKeyMapPrefix(\"#\") %s is %q, expected %q", prefix, kv, v3.s(kv), defaultKeyNames[kv])
+				}
+			}
+		}
 	})
 	resetOptions()
+	if keyDiff != "" {
+		c.Violate("SetGlobalKeyMapPrefix", "state-restored", "prefix-is-internal", cas, nil, keyDiff)
+		return true
+	}
 	c.S.Transitions += 2
 	c.S.Validated++
 	api := "SetAttrPrefix"
@@ -984,7 +1016,78 @@ func c18PrefixInternal(c *Ctx, xmlText, prefix string, keyPfx bool) (nontrivial 
 	return true
 }
 
+var defaultKeyNames = map[string]string{"textK": "#text", "seqK": "#seq", "commentK": "#comment", "attrK": "#attr", "directiveK": "#directive", "procinstK": "#procinst", "targetK": "#target", "instK": "#inst"}
+
+// c18Snake: CoerceKeysToSnakeCase is documented as "all key values will be converted to snake case" for the Map
+// and the sequence decoder alike: the document is accepted exactly when it is accepted without the option, and
+// the result is the same Map with every '-' in a key (after the attribute prefix) turned into '_'.
+func c18Snake(c *Ctx, xmlText string) (nontrivial bool) {
+	cas := func() interface{} { return c18Case{Snake: xmlText} }
+	var fold func(v interface{}) interface{}
+	fold = func(v interface{}) interface{} {
+		switch t := v.(type) {
+		case map[string]interface{}:
+			m := make(map[string]interface{}, len(t))
+			for k, e := range t {
+				fk := strings.Replace(k, "-", "_", -1)
+				if strings.HasPrefix(k, "-") {
+					fk = "-" + strings.Replace(k[1:], "-", "_", -1) // the attribute prefix is not part of the name
+				}
+				m[fk] = fold(e)
+			}
+			return m
+		case []interface{}:
+			l := make([]interface{}, len(t))
+			for i, e := range t {
+				l[i] = fold(e)
+			}
+			return l
+		}
+		return v
+	}
+	for _, dec := range []string{"NewMapXml", "NewMapXmlSeq"} {
+		var m0, m1 map[string]interface{}
+		var e0, e1 error
+		st, pan := protect(func() {
+			resetOptions()
+			decode := func() (map[string]interface{}, error) {
+				if dec == "NewMapXml" {
+					m, err := mxj.NewMapXml([]byte(xmlText))
+					return m, err
+				}
+				m, err := mxj.NewMapXmlSeq([]byte(xmlText))
+				return m, err
+			}
+			m0, e0 = decode()
+			mxj.CoerceKeysToSnakeCase(true)
+			m1, e1 = decode()
+		})
+		resetOptions()
+		c.S.Transitions += 2
+		c.S.Validated++
+		if pan {
+			c.Violate("CoerceKeysToSnakeCase", "panic", "snake-case-decoders", cas, nil, st)
+			return
+		}
+		if (e0 == nil) != (e1 == nil) {
+			c.Violate("CoerceKeysToSnakeCase", "documented-behaviour", "snake-case-decoders", cas, nil,
+				fmt.Sprintf("%s(%q): without the option err=%v, with it err=%v - the option renames keys, it does not change which documents are accepted", dec, xmlText, e0, e1))
+			return true
+		}
+		if e0 == nil && !deepEq(fold(m0), m1) {
+			c.Violate("CoerceKeysToSnakeCase", "documented-behaviour", "snake-case-decoders", cas, nil,
+				fmt.Sprintf("%s(%q): without the option %s, with it %s, expected %s", dec, xmlText, dump(m0), dump(m1), dump(fold(m0))))
+			return true
+		}
+	}
+	return true
+}
+
 func c18Replay(c *Ctx, k c18Case) {
+	if k.Snake != "" {
+		c18Snake(c, k.Snake)
+		return
+	}
 	if k.Xml != "" {
 		c18PrefixInternal(c, k.Xml, k.Prefix, k.KeyPfx)
 		return
